@@ -465,7 +465,9 @@ Lemma pipe_pre_unfold : forall H W mh mw s p, pipe_pre H W mh mw s = Some p ->
       (then_ (sm_axis H (sm_th r) (sm_oh r) (sm_eff r)) (resize_axis (sm_oh r) s))
       (exactb W (sm_tw r) (sm_eff r) && exactb H (sm_th r) (sm_eff r) &&
        exactb (sm_ow r) (resizer_size (sm_ow r) s) s && exactb (sm_oh r) (resizer_size (sm_oh r) s) s)
-      (sm_eff r * s).
+      (sm_eff r * s) W H
+      (size_defect W (sm_tw r) (sm_ow r) (resizer_size (sm_ow r) s) (sm_eff r * s))
+      (size_defect H (sm_th r) (sm_oh r) (resizer_size (sm_oh r) s) (sm_eff r * s)).
 Proof.
   intros H W mh mw s p. unfold pipe_pre. destruct (sizematcher H W mh mw) as [r|]; [|discriminate].
   destruct ((resizer_size (sm_oh r) s <=? 0)%Z || (resizer_size (sm_ow r) s <=? 0)%Z) eqn:E; [discriminate|].
@@ -526,7 +528,7 @@ Qed.
 Lemma pipe_full_unfold : forall H W mh mw s st p, pipe_full H W mh mw s st = Some p ->
   exists q, pipe_pre H W mh mw s = Some q /\
     p = mkPipe (then_ (px q) (pad_axis (osize (px q)) st)) (then_ (py q) (pad_axis (osize (py q)) st))
-               (pexact q) (pfactor q).
+               (pexact q) (pfactor q) (pnx q) (pny q) (pdx q) (pdy q).
 Proof.
   intros. unfold pipe_full in H0. destruct (pipe_pre H W mh mw s) as [q|]; [|discriminate].
   inversion H0. exists q. auto.
@@ -535,7 +537,8 @@ Qed.
 Lemma pipe_centered_unfold : forall H W mh mw s st ch cw cx cy p,
   pipe_centered H W mh mw s st ch cw cx cy = Some p ->
   exists q, pipe_pre H W mh mw s = Some q /\
-    p = mkPipe (recrop (px q) cx cw st) (recrop (py q) cy ch st) (pexact q) (pfactor q).
+    p = mkPipe (recrop (px q) cx cw st) (recrop (py q) cy ch st) (pexact q) (pfactor q)
+               (pnx q) (pny q) (pdx q) (pdy q).
 Proof.
   intros. unfold pipe_centered in H0. destruct (pipe_pre H W mh mw s) as [q|]; [|discriminate].
   inversion H0. exists q. auto.
@@ -569,20 +572,148 @@ Qed.
 Lemma exact_factor_lt_one : forall f e, 0 < f -> f < 3 -> e == (f - 1) / 2 -> Qabs e < 1.
 Proof. intros. rewrite H1, half. apply Qabs_lt; lra. Qed.
 
+(* the band of the selector IS the set where the closed-form error reaches one pixel *)
+Lemma Qabs_ge_one : forall a, (1 <= a \/ a <= - (1)) <-> 1 <= Qabs a.
+Proof.
+  intros a. apply Qabs_case; intros H; (split; [intros [K | K] | intros K]); lra.
+Qed.
+
+Lemma band_iff : forall d k t, band d k t = true <-> 1 <= Qabs (d * t + (k - 1) / 2).
+Proof.
+  intros. unfold band. rewrite orb_true_iff, !Qle_bool_iff, <- Qabs_ge_one, half.
+  split; intros [A | A]; [left | right | left | right]; lra.
+Qed.
+
+Lemma band_false : forall d k t, band d k t = false -> Qabs (d * t + (k - 1) / 2) < 1.
+Proof.
+  intros d k t B. destruct (Qlt_le_dec (Qabs (d * t + (k - 1) / 2)) 1) as [L | L]; [assumption|].
+  apply band_iff in L. congruence.
+Qed.
+
+(* the band is an interval of relative positions that ends at the far edge (t = 1 is its last point
+   inside the image) and never holds at the near edge t = 0 *)
+Lemma band_far_edge : forall d k t t', 0 < k -> k < 3 -> 0 <= t -> t <= t' ->
+  band d k t = true -> band d k t' = true.
+Proof.
+  intros d k t t' K0 K3 T0 TT. unfold band. rewrite !orb_true_iff, !Qle_bool_iff.
+  intros [A | A]; [left | right].
+  - assert (0 < d) by nra. nra.
+  - assert (d < 0) by nra. nra.
+Qed.
+
+Lemma band_near_edge : forall d k, 0 < k -> k < 3 -> band d k 0 = false.
+Proof.
+  intros d k K0 K3. unfold band. apply orb_false_iff. split.
+  - destruct (Qle_bool ((3 - k) * (1 # 2)) (d * 0)) eqn:E; [|reflexivity]. apply Qle_bool_iff in E. lra.
+  - destruct (Qle_bool (d * 0) (- ((1 + k) * (1 # 2)))) eqn:E; [|reflexivity]. apply Qle_bool_iff in E. lra.
+Qed.
+
+(* the band is empty unless the size defect is at least min (3-k, 1+k)/2 *)
+Lemma band_needs_defect : forall d k t, 0 <= t -> t <= 1 -> 0 < k -> k < 3 -> band d k t = true ->
+  (3 - k) * (1 # 2) <= d \/ d <= - ((1 + k) * (1 # 2)).
+Proof.
+  intros d k t T0 T1 K0 K3. unfold band. rewrite orb_true_iff, !Qle_bool_iff.
+  intros [A | A]; [left | right].
+  - assert (0 < d) by nra. nra.
+  - assert (d < 0) by nra. nra.
+Qed.
+
+(* CLOSED FORM of the registration error of size matcher -> resizer:  d * t + (k - 1)/2  with
+   d = size defect, t = relative position, k = eff * scale *)
+Lemma pipe_pre_err_formula : forall H W mh mw s p,
+  (0 < H)%Z -> (0 < W)%Z -> (0 < dflt H mh)%Z -> (0 < dflt W mw)%Z ->
+  pipe_pre H W mh mw s = Some p ->
+  (forall x, err (px p) x == perr (pdx p) (pfactor p) (pnx p) x) /\
+  (forall y, err (py p) y == perr (pdy p) (pfactor p) (pny p) y).
+Proof.
+  intros H W mh mw s p HH HW Hmh Hmw P. apply pipe_pre_unfold in P.
+  destruct P as (r & S & Ph & Pw & ->).
+  destruct (sizematcher_spec H W mh mw r HH HW Hmh Hmw S) as (A & B & _).
+  assert (0 < sm_ow r)%Z as Ow by lia. assert (0 < sm_oh r)%Z as Oh by lia.
+  pose proof (zq_nonzero W HW). pose proof (zq_nonzero H HH).
+  pose proof (zq_nonzero _ Ow). pose proof (zq_nonzero _ Oh).
+  cbn [px py pdx pdy pfactor pnx pny]. unfold perr, relpos, size_defect.
+  split; intros z; rewrite err_then; unfold resize_axis, resizer_size; destruct (Qeq_bool s 1) eqn:E.
+  - apply Qeq_bool_iff in E. unfold err, sm_axis, id_step, ap, hp, scl, aid; simpl. rewrite E. field. auto.
+  - unfold err, sm_axis, ap, hp, scl; simpl. field. auto.
+  - apply Qeq_bool_iff in E. unfold err, sm_axis, id_step, ap, hp, scl, aid; simpl. rewrite E. field. auto.
+  - unfold err, sm_axis, ap, hp, scl; simpl. field. auto.
+Qed.
+
+(* exact sizes: no defect *)
+Lemma pipe_pre_exact_defect : forall H W mh mw s p,
+  (0 < H)%Z -> (0 < W)%Z -> (0 < dflt H mh)%Z -> (0 < dflt W mw)%Z ->
+  pipe_pre H W mh mw s = Some p -> pexact p = true -> pdx p == 0 /\ pdy p == 0.
+Proof.
+  intros H W mh mw s p HH HW Hmh Hmw P E.
+  destruct (pipe_pre_err_formula H W mh mw s p HH HW Hmh Hmw P) as [Fx Fy].
+  destruct (pipe_pre_exact_error H W mh mw s p HH HW Hmh Hmw P E) as [Ex Ey].
+  apply pipe_pre_unfold in P. destruct P as (r & S & Ph & Pw & ->).
+  cbn [px py pdx pdy pfactor pnx pny] in *. unfold perr, relpos in *.
+  pose proof (zq_nonzero W HW). pose proof (zq_nonzero H HH).
+  split.
+  - pose proof (Fx (zq W - (1 # 2))) as F1. rewrite Ex in F1.
+    assert ((zq W - (1 # 2) + (1 # 2)) / zq W == 1) as U by (field; assumption). rewrite U in F1. lra.
+  - pose proof (Fy (zq H - (1 # 2))) as F1. rewrite Ey in F1.
+    assert ((zq H - (1 # 2) + (1 # 2)) / zq H == 1) as U by (field; assumption). rewrite U in F1. lra.
+Qed.
+
+(* core of the partial statement: for ANY pipe record whose maps have the closed-form error *)
 Lemma pipe_partial_core : forall p x y,
   0 < pfactor p ->
   (pexact p = true -> (forall x, err (px p) x == (pfactor p - 1) / 2) /\
                       (forall y, err (py p) y == (pfactor p - 1) / 2)) ->
+  (forall x, err (px p) x == perr (pdx p) (pfactor p) (pnx p) x) ->
+  (forall y, err (py p) y == perr (pdy p) (pfactor p) (pny p) y) ->
   selector_F11 p = false -> selector_F11b p x y = false ->
   Qabs (err (px p) x) < 1 /\ Qabs (err (py p) y) < 1.
 Proof.
-  intros p x y Fp Ex S1 S2. unfold selector_F11 in S1. apply Qle_bool_false in S1.
+  intros p x y Fp Ex Fx Fy S1 S2. unfold selector_F11 in S1. apply Qle_bool_false in S1.
   unfold selector_F11b in S2. destruct (pexact p) eqn:E.
   - destruct (Ex eq_refl) as [A B]. split; eapply exact_factor_lt_one; eauto.
   - simpl in S2. destruct (Qle_bool 3 (pfactor p)) eqn:E3.
     + apply Qle_bool_iff in E3. lra.
     + simpl in S2. apply orb_false_elim in S2. destruct S2 as [A B].
-      apply Qle_bool_false in A. apply Qle_bool_false in B. auto.
+      apply band_false in A. apply band_false in B. rewrite Fx, Fy. unfold perr. auto.
+Qed.
+
+(* the selector is EXACTLY the set where the (modelled) error reaches one pixel with a rounded size
+   and a factor below 3: it cannot be made narrower *)
+Lemma selector_F11b_exact_core : forall p x y,
+  (forall x, err (px p) x == perr (pdx p) (pfactor p) (pnx p) x) ->
+  (forall y, err (py p) y == perr (pdy p) (pfactor p) (pny p) y) ->
+  (selector_F11b p x y = true <->
+   pexact p = false /\ pfactor p < 3 /\ (1 <= Qabs (err (px p) x) \/ 1 <= Qabs (err (py p) y))).
+Proof.
+  intros p x y Fx Fy. unfold selector_F11b. rewrite !andb_true_iff, orb_true_iff, !negb_true_iff, !band_iff.
+  rewrite Fx, Fy. unfold perr. split.
+  - intros [[A B] C]. apply Qle_bool_false in B. auto.
+  - intros (A & B & C). split; [split; [assumption|]|assumption].
+    destruct (Qle_bool 3 (pfactor p)) eqn:E; [|reflexivity]. apply Qle_bool_iff in E. lra.
+Qed.
+
+Lemma pipe_full_err_formula : forall H W mh mw s st p,
+  (0 < H)%Z -> (0 < W)%Z -> (0 < dflt H mh)%Z -> (0 < dflt W mw)%Z ->
+  pipe_full H W mh mw s st = Some p ->
+  (forall x, err (px p) x == perr (pdx p) (pfactor p) (pnx p) x) /\
+  (forall y, err (py p) y == perr (pdy p) (pfactor p) (pny p) y).
+Proof.
+  intros H W mh mw s st p HH HW Hmh Hmw P. apply pipe_full_unfold in P.
+  destruct P as (q & Pq & ->). cbn [px py pdx pdy pfactor pnx pny].
+  destruct (pipe_pre_err_formula H W mh mw s q HH HW Hmh Hmw Pq) as [A B].
+  split; intros; rewrite err_then_pad; auto.
+Qed.
+
+Lemma pipe_centered_err_formula : forall H W mh mw s st ch cw cx cy p,
+  (0 < H)%Z -> (0 < W)%Z -> (0 < dflt H mh)%Z -> (0 < dflt W mw)%Z -> (1 < ch)%Z -> (1 < cw)%Z ->
+  pipe_centered H W mh mw s st ch cw cx cy = Some p ->
+  (forall x, err (px p) x == perr (pdx p) (pfactor p) (pnx p) x) /\
+  (forall y, err (py p) y == perr (pdy p) (pfactor p) (pny p) y).
+Proof.
+  intros H W mh mw s st ch cw cx cy p HH HW Hmh Hmw Hch Hcw P. apply pipe_centered_unfold in P.
+  destruct P as (q & Pq & ->). cbn [px py pdx pdy pfactor pnx pny].
+  destruct (pipe_pre_err_formula H W mh mw s q HH HW Hmh Hmw Pq) as [A B].
+  split; intros; rewrite err_recrop by assumption; auto.
 Qed.
 
 Lemma pipe_full_partial : forall H W mh mw s st p x y,
@@ -591,8 +722,10 @@ Lemma pipe_full_partial : forall H W mh mw s st p x y,
   selector_F11 p = false -> selector_F11b p x y = false ->
   Qabs (err (px p) x) < 1 /\ Qabs (err (py p) y) < 1.
 Proof.
-  intros H W mh mw s st p x y HH HW Hmh Hmw Hs P. apply pipe_full_unfold in P.
-  destruct P as (q & Pq & ->). apply pipe_partial_core; simpl.
+  intros H W mh mw s st p x y HH HW Hmh Hmw Hs P.
+  destruct (pipe_full_err_formula H W mh mw s st p HH HW Hmh Hmw P) as [Fx Fy].
+  apply pipe_full_unfold in P. destruct P as (q & Pq & ->).
+  apply pipe_partial_core; try assumption; simpl.
   - apply (pipe_pre_factor_pos H W mh mw s q HH HW Hmh Hmw Hs Pq).
   - intros E. destruct (pipe_pre_exact_error H W mh mw s q HH HW Hmh Hmw Pq E) as [A B].
     split; intros; rewrite err_then_pad; auto.
@@ -606,7 +739,9 @@ Lemma pipe_centered_partial : forall H W mh mw s st ch cw cx cy p x y,
   Qabs (err (px p) x) < 1 /\ Qabs (err (py p) y) < 1.
 Proof.
   intros H W mh mw s st ch cw cx cy p x y HH HW Hmh Hmw Hs Hch Hcw P.
-  apply pipe_centered_unfold in P. destruct P as (q & Pq & ->). apply pipe_partial_core; simpl.
+  destruct (pipe_centered_err_formula H W mh mw s st ch cw cx cy p HH HW Hmh Hmw Hch Hcw P) as [Fx Fy].
+  apply pipe_centered_unfold in P. destruct P as (q & Pq & ->).
+  apply pipe_partial_core; try assumption; simpl.
   - apply (pipe_pre_factor_pos H W mh mw s q HH HW Hmh Hmw Hs Pq).
   - intros E. destruct (pipe_pre_exact_error H W mh mw s q HH HW Hmh Hmw Pq E) as [A B].
     split; intros; rewrite err_recrop by assumption; auto.
